@@ -583,6 +583,71 @@ def shrink(case, sig):
     return cur
 
 
+# ----------------------------------------------------------------------------- directed cases
+
+def _case(kind, route, sources, inputs, polys, vcounts=(), verts=()):
+    return dict(kind=kind, route=route, sources=[[rl, list(nm)] for rl, nm in sources], verts=[list(v) for v in verts],
+                inputs=[list(i) for i in inputs], vcounts=list(vcounts), polys=[list(p) for p in polys])
+
+
+XYZ, ST = ('X', 'Y', 'Z'), ('S', 'T')
+
+
+def directed():
+    """witnesses of the defects repaired on branch fix/c09 (both routes) and the edge cases of the
+    quantifier; they run before the random cases on every run"""
+    out = []
+    for route in 'CL':
+        v = [('POSITION', 0)] if route == 'L' else []
+        ref = 'v' if route == 'L' else 0
+        for kind in KINDS:
+            w = WIDTH[kind]
+            vc = [w] if kind == 'polylist' else []
+            one = [list(range(w))] if w > 1 else [[0, 1, 2]]
+            if kind == 'polylist':
+                vc = [3]
+            # ragged stream
+            out.append(_case(kind, route, [(9, XYZ)], [(0, 'VERTEX', ref, None)], [one[0] + [0]] if kind != 'polylist' else [[0, 1, 2, 0]],
+                             vc, v))
+            out.append(_case(kind, route, [(9, XYZ), (6, XYZ)], [(0, 'VERTEX', ref, None), (1, 'NORMAL', 1, None)],
+                             [[0, 0, 1, 1, 2][:2 * len(one[0]) - 1]], vc, v))
+            # tangent / binormal beyond the source, at the last position
+            for sem in ('TEXTANGENT', 'TEXBINORMAL', 'TEXCOORD', 'NORMAL'):
+                src = (4, ST) if sem == 'TEXCOORD' else (6, XYZ)
+                st = [e for c in one[0] for e in (c, 1)]
+                st[-1] = 2
+                out.append(_case(kind, route, [(9, XYZ), src], [(0, 'VERTEX', ref, None), (1, sem, 1, 0)], [st], vc, v))
+            # index exactly len(source), and the largest valid one
+            out.append(_case(kind, route, [(9, XYZ)], [(0, 'VERTEX', ref, None)], [[0, 1, 3][:len(one[0])][:-1] + [3]], vc, v))
+            out.append(_case(kind, route, [(9, XYZ)], [(0, 'VERTEX', ref, None)], [[0, 1, 2][:len(one[0])][:-1] + [2]], vc, v))
+            # values that used to wrap around on load
+            for big in (2 ** 31, 2 ** 32 - 1, 2 ** 32, 2 ** 32 + 1, 2 ** 63, 2 ** 64 + 1):
+                if route == 'L' or big < 2 ** 63:
+                    out.append(_case(kind, route, [(9, XYZ)], [(0, 'VERTEX', ref, None)], [one[0][:-1] + [big]], vc, v))
+            # empty stream, empty source
+            out.append(_case(kind, route, [(0, XYZ)], [(0, 'VERTEX', ref, None)], [[]] if kind != 'polygons' else [], [], v))
+            out.append(_case(kind, route, [(0, XYZ)], [(0, 'VERTEX', ref, None)], one, vc, v))
+            # source data not a multiple of the stride; arity
+            out.append(_case(kind, route, [(10, XYZ)], [(0, 'VERTEX', ref, None)], one, vc, v))
+            out.append(_case(kind, route, [(8, ST)], [(0, 'VERTEX', ref, None)], one, vc, v))
+            out.append(_case(kind, route, [(9, ('A', 'B', 'C'))], [(0, 'VERTEX', ref, None)], one, vc, v))
+        # vcount totals
+        for vcs, st in (([4], [0, 1, 2]), ([2], [0, 1, 2]), ([3], []), ([], [0, 1, 2]), ([3, 0], [0, 1, 2]), ([2 ** 32 + 3], [0, 1, 2])):
+            out.append(_case('polylist', route, [(9, XYZ)], [(0, 'VERTEX', ref, None)], [st], vcs, v))
+        # polygons whose <p> lengths are not multiples of the stride but add up to one
+        out.append(_case('polygons', route, [(9, XYZ), (6, XYZ)], [(0, 'VERTEX', ref, None), (1, 'NORMAL', 1, None)],
+                         [[0, 0, 1, 1, 2], [0, 1, 1]], [], v))
+        out.append(_case('polygons', route, [(9, XYZ), (6, XYZ)], [(0, 'VERTEX', ref, None), (1, 'NORMAL', 1, None)],
+                         [[0, 0, 1, 1, 2, 1], [0, 1, 1, 0]], [], v))
+    # S,T,P data that is not a multiple of 3; NORMAL inside <vertices>
+    out.append(_case('triangles', 'L', [(9, XYZ), (10, ('S', 'T', 'P'))], [(0, 'VERTEX', 'v', None), (1, 'TEXCOORD', 1, 0)],
+                     [[0, 0, 1, 1, 2, 2]], [], [('POSITION', 0)]))
+    out.append(_case('triangles', 'L', [(9, XYZ), (9, ('S', 'T', 'P'))], [(0, 'VERTEX', 'v', None), (1, 'TEXCOORD', 1, 0)],
+                     [[0, 0, 1, 1, 2, 2]], [], [('POSITION', 0)]))
+    out.append(_case('lines', 'L', [(9, XYZ), (6, XYZ)], [(0, 'VERTEX', 'v', None)], [[0, 1, 2, 0]], [], [('POSITION', 0), ('NORMAL', 1)]))
+    return out
+
+
 # ----------------------------------------------------------------------------- check
 
 def run(ctx):
@@ -595,13 +660,14 @@ def run(ctx):
                 'shifted, source data length off, wrong arity, shuffled stream. Non-trivial = non-empty stream; distinct = distinct '
                 'specification')
     ncases = ctx.n(25000, 300000)
-    cases = []
+    cases = [(c, 'directed') for c in directed()]
     for _ in range(ncases):
         c, mode = gen_case(ctx.rng)
         cases.append((c, mode))
     lines = [line_of(c) for c, _ in cases]
     model = ctx.driver('C09', lines) if ctx.lean_ok else None
     reported = set()
+    corr = []     # correspondence-only deviations are listed after the failing inputs
     for idx, (c, mode) in enumerate(cases):
         ans, prim = run_impl(c)
         stream_len = sum(len(p) for p in c['polys'])
@@ -630,10 +696,12 @@ def run(ctx):
             sig = 'corr:%s:%s' % (c['route'], c['kind'])
             if sig not in reported:
                 reported.add(sig)
-                ctx.violation(sig, 'correspondence Pyc.Validate.construct <-> pycollada broke on %r: model %r, implementation %r; the '
-                              'array oracle found no failing input on this case (theorems of Pyc/Props/C09.lean no longer describe the '
-                              'code)' % (lines[idx], model[idx], ans),
-                              dict(kind='correspondence', case=c, line=lines[idx], model=model[idx], impl=ans), found_input=False)
+                corr.append((sig, 'correspondence Pyc.Validate.construct <-> pycollada broke on %r: model %r, implementation %r; the '
+                             'array oracle found no failing input on this case (theorems of Pyc/Props/C09.lean no longer describe the '
+                             'code)' % (lines[idx], model[idx], ans),
+                             dict(kind='correspondence', case=c, line=lines[idx], model=model[idx], impl=ans)))
+    for sig, what, rep in corr:
+        ctx.violation(sig, what, rep, found_input=False)
     ctx.assumptions.append('numpy reshape / max / fancy indexing, the int64 text parser and xml.etree are modelled, not verified; '
                            'float source data are the integers 0..n-1')
 
